@@ -182,7 +182,7 @@ def rule_intent_first(fx, col):
         # candidate flows only into pay/dec on the Err arm
         for bb, t in b.calls(include_cleanup=False):
             if _result_arm(b, bb, res) == 'Err' and any(_call_bbs(b, a) == {L.bb} for a in t['args']):
-                good = _is_pay(t) or _is_refcnt(t, 'dec')
+                good = _is_pay(t) or _is_refcnt(t, 'dec') or (_is_refcnt(t, 'from_ptr') and ('call', bb) not in b.origins(0))
                 col.add('INTENT-FIRST', '%s|candidate on Err arm -> %s' % (fn, U.callee_name(t)), good, 'the rejected candidate is only paid back / released', b.loc(bb))
     col.floor('INTENT-FIRST', 'fallback bodies', n, 1)
     _confirm_shape(fx, col, cx)
